@@ -187,22 +187,74 @@ def rows_of(m):
     return out
 
 
+MATRIX_KEYS = ("stress", "stress_rotation", "stress_total_pressure", "rotation_displacement",
+               "rotation_rotation", "solid_mass_displacement", "solid_mass_total_pressure", "bound_stress",
+               "bound_rotation_displacement", "bound_mass_displacement", "bound_displacement_cell",
+               "bound_displacement_face", "bound_displacement_rotation_cell",
+               "bound_displacement_solid_pressure_cell")
+
+
+def _set_bc_flags(bc, bf, neu):
+    bc.is_dir[:, bf] = True
+    bc.is_neu[:, bf] = False
+    for k, f in neu:
+        bc.is_dir[k, f] = False
+        bc.is_neu[k, f] = True
+
+
 def discretize(case):
+    """Discretise the case.  With case["history"] (a list of earlier stages {"neu", "mu", "how"})
+    ONE pp.Tpsa object, ONE grid and ONE data dictionary go through the earlier stages first; "how"
+    says how the parameters are changed from one stage to the next: "bc_inplace" (flags of the same
+    bc object), "bc_object" (a new bc object in the same dictionary), "mu_inplace" (the mu array of
+    the same tensor), "tensor_object" (a new tensor).  The matrices of the LAST discretisation are
+    returned, with the largest deviation from a fresh Tpsa object on fresh data."""
     g = make_grid(case["grid"])
     nd, nc, nf = g.dim, g.num_cells, g.num_faces
     bf = g.get_all_boundary_faces()
+    stages = list(case.get("history") or []) + [{"neu": case["neu"], "mu": case["mu"], "how": case.get("how", [])}]
+    discr = pp.Tpsa(KW)
+    first = stages[0]
     bc = pp.BoundaryConditionVectorial(g, bf, ["dir"] * bf.size)
-    for k, f in case["neu"]:
-        bc.is_dir[k, f] = False
-        bc.is_neu[k, f] = True
-    C = pp.FourthOrderTensor(float(case["mu"]) * np.ones(nc), float(case["lam"]) * np.ones(nc))
+    _set_bc_flags(bc, bf, first["neu"])
+    C = pp.FourthOrderTensor(float(first["mu"]) * np.ones(nc), float(case["lam"]) * np.ones(nc))
     data = {pp.PARAMETERS: {KW: {"fourth_order_tensor": C, "bc": bc}},
             pp.DISCRETIZATION_MATRICES: {KW: {}}}
     with _Capture() as cap:
-        pp.Tpsa(KW).discretize(g, data)
+        discr.discretize(g, data)
+        for st in stages[1:]:
+            how = st.get("how") or ["bc_object", "tensor_object"]
+            if "bc_inplace" in how:
+                _set_bc_flags(bc, bf, st["neu"])
+            else:
+                bc = pp.BoundaryConditionVectorial(g, bf, ["dir"] * bf.size)
+                _set_bc_flags(bc, bf, st["neu"])
+                data[pp.PARAMETERS][KW]["bc"] = bc
+            if "mu_inplace" in how:
+                C.mu[:] = float(st["mu"])
+            else:
+                C = pp.FourthOrderTensor(float(st["mu"]) * np.ones(nc), float(case["lam"]) * np.ones(nc))
+                data[pp.PARAMETERS][KW]["fourth_order_tensor"] = C
+            discr.discretize(g, data)
     if cap.maps is None:
         raise RuntimeError("Tpsa.discretize did not build its cell-to-face maps")
-    return g, bc, C, data[pp.DISCRETIZATION_MATRICES][KW], cap.maps.c2f
+    mats = data[pp.DISCRETIZATION_MATRICES][KW]
+    hist_diff = 0.0
+    if len(stages) > 1:
+        g2 = make_grid(case["grid"])
+        bc2 = pp.BoundaryConditionVectorial(g2, bf, ["dir"] * bf.size)
+        _set_bc_flags(bc2, bf, case["neu"])
+        C2 = pp.FourthOrderTensor(float(case["mu"]) * np.ones(nc), float(case["lam"]) * np.ones(nc))
+        data2 = {pp.PARAMETERS: {KW: {"fourth_order_tensor": C2, "bc": bc2}},
+                 pp.DISCRETIZATION_MATRICES: {KW: {}}}
+        pp.Tpsa(KW).discretize(g2, data2)
+        fresh = data2[pp.DISCRETIZATION_MATRICES][KW]
+        for key in MATRIX_KEYS:
+            a, b = sps.csr_matrix(mats[key]), sps.csr_matrix(fresh[key])
+            dif = abs(a - b)
+            scale = 1.0 + (abs(b).max() if b.nnz else 0.0)
+            hist_diff = max(hist_diff, float(dif.max() if dif.nnz else 0.0) / scale)
+    return g, bc, C, mats, cap.maps.c2f, hist_diff
 
 
 class C16(Prop):
@@ -247,7 +299,11 @@ class C16(Prop):
         "system is the one of the TPSA tests and docstring: Div*face_discretization - diag(0, "
         "V/mu, V/lambda), b = -Div*rhs_matrix*g, assembled in Coq from the face rows and the "
         "incidence rows of sd.divergence(1) (the harness checks that sd.divergence(nd) is its "
-        "Kronecker expansion). Robin conditions are not covered. The averaging rows use the "
+        "Kronecker expansion). Robin conditions are not covered. Histories: in every fourth case the matrices come from "
+        "the LAST of 2-3 discretisations by one Tpsa object on one grid and one data dictionary (bc "
+        "types / bc object / mu changed between the calls); certificates and oracle judge those "
+        "matrices, and the oracle additionally requires agreement (1e-12 relative) with a fresh Tpsa "
+        "object on fresh data (this tree's Tpsa has no Cosserat parameter to vary). The averaging rows use the "
         "cell-to-face map c2f captured by monkey-patching Tpsa._create_cell_to_face_maps, joined "
         "with the public bound_displacement_face matrix.")
     technique = ("Coq proof of method-level theorems (linearity / row-sum arguments over Q) + "
@@ -256,7 +312,9 @@ class C16(Prop):
             "constructor), StructuredTriangleGrid, StructuredTetrahedralGrid "
             "(3-D larger in the thorough tier), 55% with every node moved by a dyadic offset "
             "(non-planar hexahedral faces included); constant Lame parameters from a dyadic set; "
-            "boundary: all Dirichlet (40%), Dirichlet/Neumann per face (30%) or per face-component "
+            "every fourth case is a HISTORY: one Tpsa object / grid / data dictionary discretised 2-3 times, "
+            "bc types or mu changed in place or by new objects between the calls, final matrices also "
+            "compared (1e-12) with a fresh Tpsa on fresh data; boundary: all Dirichlet (40%), Dirichlet/Neumann per face (30%) or per face-component "
             "(30% + every third case: rollers, Dirichlet in some components and Neumann in others on one "
             "face, on boundaries of every orientation), at least half of the boundary faces Dirichlet in every component; translation with "
             "quarter-integer components; non-trivial = at least 2 cells and a non-zero translation")
@@ -302,7 +360,37 @@ class C16(Prop):
             t = [rng.randint(-16, 16) / 4.0 for _ in range(nd)]
             if rng.random() < 0.1:
                 t = [0.0] * nd
-            yield {"grid": spec, "mu": rng.choice(mus), "lam": rng.choice(lams), "neu": neu,
+            mu = rng.choice(mus)
+            history, how = None, []
+            if idx % 4 == 1 or rng.random() < 0.15:
+                # HISTORY stream: ONE Tpsa object, one grid, one data dictionary, 2-3 discretisations in
+                # a row.  Each earlier stage differs from the case proper (the last stage) in one kind
+                # of parameter only (bc types, or mu); "how" of a stage says how the step INTO it is
+                # made: bc flags changed in place / a new bc object, mu array changed in place / a new
+                # tensor object (a step may also replace an object by an equal one).
+                pick_how = lambda: [rng.choice(["bc_inplace", "bc_inplace", "bc_object"]),
+                                    rng.choice(["mu_inplace", "tensor_object"])]
+                history = []
+                for _ in range(rng.choice([1, 1, 2])):
+                    st = {"neu": neu, "mu": mu, "how": pick_how()}
+                    if rng.random() < 0.65:
+                        other = rng.choice(["dir", "dir", "face", "comp"])
+                        st["neu"] = ([] if other == "dir" else
+                                     [[k, f] for f in pick() for k in range(nd)] if other == "face" else
+                                     [[k, f] for k in range(nd) for f in pick()])
+                    else:
+                        st["mu"] = rng.choice([m for m in mus if m != mu])
+                    history.append(st)
+                how = pick_how()
+                if idx % 8 == 1:
+                    # directed: faces go from Dirichlet (previous stage) to Neumann (last stage) with mu
+                    # unchanged and the bc flags changed in place
+                    if not neu:
+                        mode = "face"
+                        neu = [[k, f] for f in pick() for k in range(nd)]
+                    history[-1] = {"neu": [], "mu": mu, "how": history[-1]["how"]}
+                    how = ["bc_inplace", "mu_inplace"]
+            yield {"grid": spec, "mu": mu, "lam": rng.choice(lams), "neu": neu, "history": history, "how": how,
                    "mode": mode, "t": t}
 
     # -------------------------------------------------------------- implementation
@@ -326,7 +414,7 @@ class C16(Prop):
         return self._cache[key]
 
     def _run_full(self, case):
-        g, bc, C, m, c2f = discretize(case)
+        g, bc, C, m, c2f, hist_diff = discretize(case)
         nd, nc, nf = g.dim, g.num_cells, g.num_faces
         rd = 3 if nd == 3 else 1
         z = lambda a, b: sps.csr_matrix((a, b))
@@ -354,6 +442,7 @@ class C16(Prop):
                 "srows": rows_of(srows), "rrows": rows_of(rrows), "mrows": rows_of(mrows),
                 "arows": rows_of(arows), "acc": [float(x) for x in acc]}
         full["inv"] = self._inverse(full)
+        full["hist_diff"] = hist_diff
         return full
 
     INV_MAX = 20
@@ -403,6 +492,10 @@ class C16(Prop):
 
     def oracle(self, case, res):
         res = self._full(case)
+        if res.get("hist_diff", 0.0) > 1e-12:
+            return (f"discretisation depends on the history of the Tpsa object: after {len(case.get('history') or [])} "
+                    f"earlier discretisation(s) the matrices differ from a fresh Tpsa on fresh data by "
+                    f"{res['hist_diff']:.3e} (relative)")
         nd, rd, nc, nf = res["nd"], res["rd"], res["nc"], res["nf"]
         ndof = (nd + rd + 1) * nc
         ncols = ndof + nd * nf
@@ -467,6 +560,7 @@ class C16(Prop):
     def nontrivial(self, case, res):
         self._stats["dims"][res["nd"]] = self._stats["dims"].get(res["nd"], 0) + 1
         self._stats["bc_modes"][case["mode"]] = self._stats["bc_modes"].get(case["mode"], 0) + 1
+        self._stats["histories"] = self._stats.get("histories", 0) + int(bool(case.get("history")))
         if self._full(case).get("inv"):
             self._stats["nonsingularity_certificates"] = self._stats.get("nonsingularity_certificates", 0) + 1
         return res["nc"] >= 2 and any(x != 0 for x in case["t"])
@@ -481,6 +575,8 @@ class C16(Prop):
             "dims / bc_modes count the generated instances"))}
 
     def finding_key(self, case, res, why):
+        if "history" in why:
+            return "history-dependent-discretisation"
         if "gives stress" in why:
             return "translation-stress-nonzero"
         return "translation-not-recovered"
